@@ -164,7 +164,8 @@ struct Op
     uint8_t peek{0};    // 1 = peek
     uint8_t rngq{0};    // rr: generator quantile forced for this call
     uint8_t dev{0};     // 1 = this Advance is a sub-millisecond deviation (costs budget)
-    int8_t  key[MAXR]{0, 0, 0};
+    int16_t key[MAXR]{0, 0, 0};
+    int16_t span{0};    // > 0: a long range over the keys 1..span (key[] unused; wid[0]+i, ttl[0] per element)
     int8_t  ttl[MAXR]{0, 0, 0}; // ms; tlru per element; UpdateTtl: ttl[0]
     int32_t wid[MAXR]{0, 0, 0}; // write ids (assigned by the engine; not part of the state key)
     int64_t dt{0};              // Advance: nanoseconds
@@ -222,6 +223,16 @@ inline std::string op_str(const Op& o)
             break;
     }
     s += "(";
+    if (is_range(o.k) && o.span > 0)
+    {
+        snprintf(b, sizeof b, "[k1..k%d]", (int)o.span);
+        s += b;
+        if (is_insert(o.k))
+            s += std::string(",allow=") + al();
+        if (is_find(o.k) && o.peek)
+            s += ",peek";
+        return s + ")";
+    }
     if (is_range(o.k))
         s += "[";
     for (int i = 0; i < o.n; i++)
@@ -259,7 +270,7 @@ inline std::string op_ser(const Op& o)
     snprintf(
         b,
         sizeof b,
-        "%d %d %d %d %d %d %d %d %d %d %d %d %d %d %d %lld",
+        "%d %d %d %d %d %d %d %d %d %d %d %d %d %d %d %lld %d",
         (int)o.k,
         o.n,
         o.allow,
@@ -275,16 +286,18 @@ inline std::string op_ser(const Op& o)
         o.wid[0],
         o.wid[1],
         o.wid[2],
-        (long long)o.dt);
+        (long long)o.dt,
+        (int)o.span);
     return b;
 }
 inline bool op_parse(const char* s, Op& o)
 {
     int       a[15];
     long long dt;
+    int       span = 0;
     int       r = sscanf(
         s,
-        "%d %d %d %d %d %d %d %d %d %d %d %d %d %d %d %lld",
+        "%d %d %d %d %d %d %d %d %d %d %d %d %d %d %d %lld %d",
         &a[0],
         &a[1],
         &a[2],
@@ -300,9 +313,11 @@ inline bool op_parse(const char* s, Op& o)
         &a[12],
         &a[13],
         &a[14],
-        &dt);
-    if (r != 16)
+        &dt,
+        &span);
+    if (r < 16)
         return false;
+    o.span  = (int16_t)span;
     o.k     = (OpK)a[0];
     o.n     = a[1];
     o.allow = a[2];
